@@ -7,6 +7,7 @@ two must be identical and the process must exit normally. A Spin model of the C+
 initialisation rules generalises the observations (see harness/initorder/init_order.pml)."""
 import itertools
 import os
+import re
 import subprocess
 import time
 from lib import vf, units, qh
@@ -98,6 +99,10 @@ def run(ctx):
     thorough = ctx.tier == 'thorough'
     recs = units.dump(ctx)
     ts = units.enum_types()
+    # constitutive model OBJECTS at namespace scope (their own entry: clang 14 cannot compile the model headers of this tree at all,
+    # which would otherwise take the model-type enumeration out of the clang runs as well)
+    ts = ts + [{'name': 'ConstitutiveModel objects', 'hdr': '<PhQ/ConstitutiveModel/ElasticIsotropicSolid.hpp>\n#include <PhQ/ConstitutiveModel/IncompressibleNewtonianFluid.hpp>\n#include <PhQ/ConstitutiveModel/CompressibleNewtonianFluid.hpp>',
+                'cpp': 'PhQ::ConstitutiveModel::Type', 'kind': 3}]
     qmap = quantity_map(ctx)
     nonstd = {}
     for r in recs:
@@ -168,7 +173,14 @@ def run(ctx):
     for (pi, cn, opt), err in compile_fail.items():
         if cn == 'g++':
             raise vf.Undecided('static-initialisation program for %s does not compile with g++: %s' % (programs[pi]['type'], err))
-        h.notes.append('clang++ cannot compile the %s program for %s (%s): configuration skipped: %s' % (programs[pi]['arr'], programs[pi]['type'], opt, err.splitlines()[0][:200] if err else ''))
+        # the statement names both compilers: a translation unit that g++ builds and clang++ rejects is a configuration in which
+        # nothing can be constructed before main() at all (one finding per enumeration type / facility, not per arrangement)
+        first = next((l for l in err.splitlines() if 'error' in l), err.splitlines()[0] if err else '')
+        first = re.sub(r'^\S*/include/', 'include/', first.strip())
+        key = 'static-init|%s|%s|does-not-compile' % (cn, programs[pi]['type'])
+        if not any(k == key for k, _ in h.viols):
+            h.viols.append((key, {'compiler': cn, 'enumeration_type': programs[pi]['type'], 'outcome': 'translation unit rejected', 'first_error': first[:300],
+                                  'what': 'a translation unit that includes the library headers and defines objects with static storage duration is accepted by g++ and rejected by clang++'}))
 
     link_jobs = []
     for pi, p in enumerate(programs):
